@@ -68,3 +68,28 @@ package capnp
 //@   assert before "_, newAddr, err := alloc(dst, sz)" srcrange: M(l.off)+M(sz) <= M(len(l.seg.data))
 //@   -- a composite list keeps its tag word: the elements start one word after the allocation
 //@   assert before "end, _ := l.off.addSize(sz)" tagkept: implies(l.flags&isCompositeList != 0, M(cl.off) == M(newAddr)+8)
+//@   -- an element of a pointer list is stored only if it was canonicalized without error (so a
+//@   -- capability inside a pointer list makes the whole call fail)
+//@   assert before "if err := cl.Set(i, cp)" elemerr: err == nil
+//@   -- the element size of a canonical struct list is the maximum over its elements in BOTH
+//@   -- dimensions: after looking at an element, neither its canonical data size nor its canonical
+//@   -- pointer count exceeds the running maximum (checked at the end of every iteration)
+//@   assert before "i++#1" maxboth: elemSize.DataSize >= sz.DataSize && elemSize.PointerCount >= sz.PointerCount
+
+// PARTIAL.  "Structs containing capabilities are rejected": canonicalPtr fails on every interface
+// pointer, and a list pointer is returned only when the list was canonicalized without error.
+//@ func canonicalPtr -> r, err
+//@   props C18
+//@   partial post
+//@   requires wfPtr(p) && wfSegW(dst)
+//@   ensures capreject: implies(p.seg != nil && p.flags.ptrType() == interfacePtrType, err != nil)
+//@   ensures nullnull: implies(p.seg == nil, err == nil && r.seg == nil)
+//@   assert before "return ll.ToPtr(), nil" listerr: err == nil
+
+// PARTIAL.  A pointer field is stored only if its target was canonicalized without error, and
+// only pointers inside the source struct are read.
+//@ func fillCanonicalStruct -> err
+//@   props C18
+//@   partial
+//@   requires wfStruct(dst) && wfStruct(s) && dst.seg != nil
+//@   assert before "if err := dst.SetPtr(i, cp)" fielderr: err == nil
